@@ -2,6 +2,7 @@ import Driver.Par
 import Driver.Collider
 import Driver.EarClip
 import Driver.Mesh
+import Driver.Csg
 /-! `mvdriver`: reads one request per line on stdin, prints one answer per line.
 First token = engine. -/
 
@@ -11,6 +12,7 @@ def dispatch (line : String) : String :=
   | "collider" :: rest => Collider.handle rest
   | "earclip" :: rest => EarClip.handle rest
   | "mesh" :: rest => Mesh.handle rest
+  | "csg" :: rest => Csg.handle rest
   | _ => "bad-engine"
 
 partial def loop (h : IO.FS.Stream) (out : IO.FS.Stream) : IO Unit := do
